@@ -302,6 +302,16 @@ func enumC06(env *engine.Env, yield func(any) bool) {
 				}
 			}
 		}
+		if cc.comp == "" && cc.sign == "" && wovenAvailable {
+			// a source that changes while it is packaged, at each of the code's accesses to it (woven copy)
+			for _, sh := range []string{"grow", "shrink", "rewrite", "grow-rewrite", "shrink-rewrite", "remove"} {
+				for _, place := range []string{"file", "config", "glob", "tree"} {
+					if !yield(C06Case{Part: "mutating-source", Format: cc.f, Shape: sh, Ref: place}) {
+						return
+					}
+				}
+			}
+		}
 		if cc.comp == "" && cc.sign == "" {
 			// sources that are neither files, directories nor links (a named pipe nobody writes to, a socket, a device),
 			// met in every way a content entry reaches a source
@@ -669,6 +679,8 @@ func checkC06(env *engine.Env, ci any) engine.Outcome {
 		}
 	case "cli":
 		checkC06CLI(env, c, &out, viol)
+	case "mutating-source":
+		checkC06Woven(env, c, &out, viol)
 	}
 	return out
 }
